@@ -10,10 +10,13 @@ import (
 	"sort"
 	"strings"
 
+	"google.golang.org/protobuf/encoding/protowire"
 	"google.golang.org/protobuf/proto"
 	"google.golang.org/protobuf/reflect/protodesc"
 	"google.golang.org/protobuf/reflect/protoreflect"
+	"google.golang.org/protobuf/reflect/protoregistry"
 	"google.golang.org/protobuf/types/descriptorpb"
+	"google.golang.org/protobuf/types/dynamicpb"
 	"google.golang.org/protobuf/types/pluginpb"
 	"google.golang.org/protobuf/verif/core"
 	"google.golang.org/protobuf/verif/gen"
@@ -21,8 +24,8 @@ import (
 
 func init() {
 	core.Register(&core.Check{
-		ID: "C40",
-		Rule: "cases: the real protoc-gen-go binary, built from the repository under test, fed serialized CodeGeneratorRequests (no protoc involved) built from (a) every linked file with its transitive dependencies and (b) PRNG-generated multi-file schemas, under parameter sets {none, paths=source_relative, module=..., default_api_level=API_OPEN/API_HYBRID/API_OPAQUE, M-mappings}; each request is run R=4 times in separate processes with GOMAXPROCS 1/2/7/16 (Go randomises map iteration per process) and the response bytes must be identical; requests naming several files are re-run with permuted file_to_generate and must yield the same file name -> content map; distinct = distinct (request bytes); non-trivial = response with at least one generated file",
+		ID:     "C40",
+		Rule:   "cases: the real protoc-gen-go binary, built from the repository under test, fed serialized CodeGeneratorRequests (no protoc involved) built from (a) every linked file with its transitive dependencies (b) PRNG-generated multi-file schemas and (c) requests that define custom options in the request itself (an extension of every *Options message whose value message has two map fields) and use them on a file, messages, fields, oneofs, enums, enum values, services and methods with 2..24 map entries each, delivered as unknown bytes of the options messages, under parameter sets {none, paths=source_relative, module=..., default_api_level=API_OPEN/API_HYBRID/API_OPAQUE, M-mappings}; each request is run R=4 times in separate processes with GOMAXPROCS 1/2/7/16 (Go randomises map iteration per process) and the response bytes must be identical; requests naming several files are re-run with permuted file_to_generate and must yield the same file name -> content map; distinct = distinct (request bytes); non-trivial = response with at least one generated file",
 		Assume: []string{"byte equality of process outputs", "Go's per-process map iteration randomisation as the source of iteration orders"},
 		Batches: func(tier string) []core.Batch {
 			var bs []core.Batch
@@ -35,7 +38,7 @@ func init() {
 			return bs
 		},
 		Gates: func(tier string) map[string]int64 {
-			return map[string]int64{"requests": 150, "plugin_processes": 600, "responses_with_files": 100, "generated_files": 200, "permutation_requests": 20, "param:opaque": 20, "param:hybrid": 20, "param:source_relative": 20, "linked_requests": 60, "gen_requests": 60}
+			return map[string]int64{"requests": 150, "plugin_processes": 600, "responses_with_files": 100, "generated_files": 200, "permutation_requests": 20, "param:opaque": 20, "param:hybrid": 20, "param:source_relative": 20, "linked_requests": 60, "gen_requests": 60, "optionmap_requests": 8}
 		},
 		Run: runC40,
 	})
@@ -314,4 +317,113 @@ func runC40(c *core.Ctx, b core.Batch) {
 		c.Count("param:" + tag)
 		c40Request(c, plugin, o.Prefix, s.Files, names, param, "gen")
 	}
+	// (c) custom options defined in the request itself, whose values hold maps
+	// with many entries (delivered as unknown bytes of the options messages,
+	// the way protoc sends them)
+	for i := 0; i < c.Scale(3, 40); i++ {
+		r := c.Rng(uint64(0x40c)<<20 | uint64(b.N)<<10 | uint64(i))
+		files, names, err := c40OptionMapFiles(r, fmt.Sprintf("c40.b%d.o%d", b.N, i))
+		if err != nil {
+			c.Violation("harness:option-map-schema-invalid", map[string]any{"err": errStr(err)})
+			continue
+		}
+		param, tag := c40Params(i + b.N)
+		c.Count("param:" + tag)
+		c40Request(c, plugin, names[len(names)-1], files, names, param, "optionmap")
+	}
+}
+
+// c40OptionMapFiles builds descriptor.proto, an options file (message Labels
+// with two map fields and a repeated field; one extension of every *Options
+// message) and a file using those options everywhere, each value with 2..24
+// map entries.
+func c40OptionMapFiles(r *core.Rand, prefix string) ([]*descriptorpb.FileDescriptorProto, []string, error) {
+	pkg := strings.ReplaceAll(prefix, ".", "_")
+	opt := descriptorpb.FieldDescriptorProto_LABEL_OPTIONAL.Enum()
+	rep := descriptorpb.FieldDescriptorProto_LABEL_REPEATED.Enum()
+	entry := func(name string, kt, vt descriptorpb.FieldDescriptorProto_Type) *descriptorpb.DescriptorProto {
+		return &descriptorpb.DescriptorProto{Name: proto.String(name), Options: &descriptorpb.MessageOptions{MapEntry: proto.Bool(true)}, Field: []*descriptorpb.FieldDescriptorProto{
+			{Name: proto.String("key"), Number: proto.Int32(1), Label: opt, Type: kt.Enum(), JsonName: proto.String("key")},
+			{Name: proto.String("value"), Number: proto.Int32(2), Label: opt, Type: vt.Enum(), JsonName: proto.String("value")}}}
+	}
+	optsFile := &descriptorpb.FileDescriptorProto{Name: proto.String(prefix + "/opts.proto"), Package: proto.String(pkg + ".opts"), Syntax: proto.String("proto3"),
+		Dependency: []string{"google/protobuf/descriptor.proto"},
+		Options:    &descriptorpb.FileOptions{GoPackage: proto.String("example.com/verif/" + pkg + "/opts")},
+		MessageType: []*descriptorpb.DescriptorProto{{Name: proto.String("Labels"),
+			NestedType: []*descriptorpb.DescriptorProto{entry("LabelsEntry", descriptorpb.FieldDescriptorProto_TYPE_STRING, descriptorpb.FieldDescriptorProto_TYPE_STRING), entry("NumsEntry", descriptorpb.FieldDescriptorProto_TYPE_INT32, descriptorpb.FieldDescriptorProto_TYPE_INT64)},
+			Field: []*descriptorpb.FieldDescriptorProto{
+				{Name: proto.String("labels"), Number: proto.Int32(1), Label: rep, Type: descriptorpb.FieldDescriptorProto_TYPE_MESSAGE.Enum(), TypeName: proto.String("." + pkg + ".opts.Labels.LabelsEntry"), JsonName: proto.String("labels")},
+				{Name: proto.String("nums"), Number: proto.Int32(2), Label: rep, Type: descriptorpb.FieldDescriptorProto_TYPE_MESSAGE.Enum(), TypeName: proto.String("." + pkg + ".opts.Labels.NumsEntry"), JsonName: proto.String("nums")},
+				{Name: proto.String("tags"), Number: proto.Int32(3), Label: rep, Type: descriptorpb.FieldDescriptorProto_TYPE_STRING.Enum(), JsonName: proto.String("tags")},
+			}}}}
+	targets := []string{"FileOptions", "MessageOptions", "FieldOptions", "OneofOptions", "EnumOptions", "EnumValueOptions", "ServiceOptions", "MethodOptions"}
+	extNum := map[string]int32{}
+	for i, t := range targets {
+		n := int32(50001 + i)
+		extNum[t] = n
+		nm := strings.ToLower(strings.TrimSuffix(t, "Options")) + "_labels"
+		optsFile.Extension = append(optsFile.Extension, &descriptorpb.FieldDescriptorProto{Name: proto.String(nm), Number: proto.Int32(n), Label: opt, Type: descriptorpb.FieldDescriptorProto_TYPE_MESSAGE.Enum(), TypeName: proto.String("." + pkg + ".opts.Labels"), Extendee: proto.String(".google.protobuf." + t), JsonName: proto.String(gen.JSONCamel(nm))})
+	}
+	descFile := protodesc.ToFileDescriptorProto(descriptorpb.File_google_protobuf_descriptor_proto)
+	reg := new(protoregistry.Files)
+	dfd, err := protodesc.NewFile(descFile, reg)
+	if err != nil {
+		return nil, nil, err
+	}
+	reg.RegisterFile(dfd)
+	ofd, err := protodesc.NewFile(optsFile, reg)
+	if err != nil {
+		return nil, nil, err
+	}
+	reg.RegisterFile(ofd)
+	labels := ofd.Messages().ByName("Labels")
+	value := func(target string) []byte {
+		m := dynamicpb.NewMessage(labels)
+		lm := m.Mutable(labels.Fields().ByName("labels")).Map()
+		for k, n := 0, 2+r.Intn(23); k < n; k++ {
+			lm.Set(protoreflect.ValueOfString(fmt.Sprintf("k%d-%s", r.Intn(100000), gen.RandIdent(r))).MapKey(), protoreflect.ValueOfString(gen.RandIdent(r)))
+		}
+		nm := m.Mutable(labels.Fields().ByName("nums")).Map()
+		for k, n := 0, 2+r.Intn(23); k < n; k++ {
+			nm.Set(protoreflect.ValueOfInt32(int32(r.Intn(1<<20)-1<<19)).MapKey(), protoreflect.ValueOfInt64(int64(r.Intn(1000))))
+		}
+		tl := m.Mutable(labels.Fields().ByName("tags")).List()
+		for k := 0; k < r.Intn(3); k++ {
+			tl.Append(protoreflect.ValueOfString(gen.RandIdent(r)))
+		}
+		// map entries in Go's iteration order of this process: the request bytes are fixed once built
+		b, _ := proto.Marshal(m)
+		return protowire.AppendBytes(protowire.AppendTag(nil, protowire.Number(extNum[target]), protowire.BytesType), b)
+	}
+	use := &descriptorpb.FileDescriptorProto{Name: proto.String(prefix + "/use.proto"), Package: proto.String(pkg + ".use"), Syntax: proto.String("proto3"),
+		Dependency: []string{prefix + "/opts.proto"},
+		Options:    &descriptorpb.FileOptions{GoPackage: proto.String("example.com/verif/" + pkg + "/use")}}
+	use.Options.ProtoReflect().SetUnknown(value("FileOptions"))
+	for mi := 0; mi < 2+r.Intn(3); mi++ {
+		m := &descriptorpb.DescriptorProto{Name: proto.String(fmt.Sprintf("M%d", mi)), Options: &descriptorpb.MessageOptions{}}
+		m.Options.ProtoReflect().SetUnknown(value("MessageOptions"))
+		m.OneofDecl = []*descriptorpb.OneofDescriptorProto{{Name: proto.String("oo"), Options: &descriptorpb.OneofOptions{}}}
+		m.OneofDecl[0].Options.ProtoReflect().SetUnknown(value("OneofOptions"))
+		for fi := 0; fi < 2+r.Intn(3); fi++ {
+			f := &descriptorpb.FieldDescriptorProto{Name: proto.String(fmt.Sprintf("f%d", fi)), Number: proto.Int32(int32(fi + 1)), Label: opt, Type: descriptorpb.FieldDescriptorProto_TYPE_STRING.Enum(), JsonName: proto.String(fmt.Sprintf("f%d", fi)), Options: &descriptorpb.FieldOptions{}}
+			f.Options.ProtoReflect().SetUnknown(value("FieldOptions"))
+			if fi < 2 {
+				f.OneofIndex = proto.Int32(0)
+			}
+			m.Field = append(m.Field, f)
+		}
+		use.MessageType = append(use.MessageType, m)
+	}
+	e := &descriptorpb.EnumDescriptorProto{Name: proto.String("E"), Options: &descriptorpb.EnumOptions{}, Value: []*descriptorpb.EnumValueDescriptorProto{{Name: proto.String("E_ZERO"), Number: proto.Int32(0), Options: &descriptorpb.EnumValueOptions{}}, {Name: proto.String("E_ONE"), Number: proto.Int32(1)}}}
+	e.Options.ProtoReflect().SetUnknown(value("EnumOptions"))
+	e.Value[0].Options.ProtoReflect().SetUnknown(value("EnumValueOptions"))
+	use.EnumType = append(use.EnumType, e)
+	svc := &descriptorpb.ServiceDescriptorProto{Name: proto.String("S"), Options: &descriptorpb.ServiceOptions{}, Method: []*descriptorpb.MethodDescriptorProto{{Name: proto.String("Do"), InputType: proto.String("." + pkg + ".use.M0"), OutputType: proto.String("." + pkg + ".use.M1"), Options: &descriptorpb.MethodOptions{}}}}
+	svc.Options.ProtoReflect().SetUnknown(value("ServiceOptions"))
+	svc.Method[0].Options.ProtoReflect().SetUnknown(value("MethodOptions"))
+	use.Service = append(use.Service, svc)
+	if _, err := protodesc.NewFile(use, reg); err != nil {
+		return nil, nil, err
+	}
+	return []*descriptorpb.FileDescriptorProto{descFile, optsFile, use}, []string{prefix + "/opts.proto", prefix + "/use.proto"}, nil
 }
